@@ -74,21 +74,21 @@ def check_case(c, p, k, u, code, prob, moved, newx, newlp):
 GRID = [-math.inf, -3.0e38, -1.0e30, -50.0, -1.0, -1e-30, -0.0, 0.0, 1e-45, 1e-30, 0.5, 1.0, 88.0, 1.0e30, 3.0e38, math.inf, math.nan]
 
 
-def kernel_cases(col, corrections=(float("nan"), 0.0, -0.5, float("-inf"))):
+def kernel_cases(col, corrections=(float("nan"), 0.0, -0.5, float("-inf")), light=False):
     """the kernels built on mh_step report what mh_step decides: user-proposal kernel with a given log-correction (NaN included),
     random-walk and IWLS kernels with a target that is NaN / -inf beyond a threshold"""
     import liesel.goose as gs
     from liesel.goose.epoch import EpochConfig, EpochType
 
     ks, us = keys_pool()
-    for etype in (EpochType.POSTERIOR, EpochType.FAST_ADAPTATION):
+    for etype in ((EpochType.POSTERIOR,) if light else (EpochType.POSTERIOR, EpochType.FAST_ADAPTATION)):
         ep = EpochConfig(etype, 10, 1, None).to_state(1, 0)
         for corr in corrections:
             model = DictInterface(lambda s_: -0.5 * jnp.sum(s_["x"] ** 2))
             k = gs.MHKernel(["x"], lambda key, ms, step, corr=corr: gs.MHProposal({"x": ms["x"] * 0.5}, jnp.float32(corr)))
             k.set_model(model)
             ms = {"x": jnp.array([2.0, -1.0], jnp.float32)}
-            for i in (0, 1, 2):
+            for i in ((1,) if light else (0, 1, 2)):
                 st = k.init_state(ks[i], ms)
                 for tr in (k.transition, jax.jit(k.transition)):
                     o = tr(ks[i], st, ms, ep)
@@ -105,6 +105,8 @@ def kernel_cases(col, corrections=(float("nan"), 0.0, -0.5, float("-inf"))):
                     col.add(None if ok else {"sig": "native::kernel::mh_kernel_reports_mh_step", "what": f"MHKernel with log-correction {corr}: error_code={int(o.info.error_code)} "
                                              f"acceptance_prob={float(o.info.acceptance_prob)} moved={bool(o.info.position_moved)}; expected code {want_code}, probability {want_p}",
                                              "input": {"kernel": "MHKernel", "log_correction": repr(corr), "epoch": etype.name, "key_index": i}})
+        if light:
+            continue
         # RW / IWLS: the target is NaN for x > 3: a proposal landing there must be reported with code 90 and rejected
         for kind in ("RW", "IWLS"):
             model = DictInterface(lambda s_: jnp.where(s_["x"] > 3.0, jnp.nan, -0.5 * s_["x"] ** 2))
@@ -125,9 +127,32 @@ def kernel_cases(col, corrections=(float("nan"), 0.0, -0.5, float("-inf"))):
                                          "input": {"kernel": kind, "epoch": etype.name, "key": 100 + i}})
 
 
+def liesel_two_steps_case(col):
+    """mh_step on a Liesel model twice from the SAME state object with proposals for different keys: the second decision must be made on
+    state + second proposal only (acceptance probability exactly 0 here), and a rejection returns the input state itself"""
+    import liesel.goose as gs
+    import liesel.model as lsl
+    import tensorflow_probability.substrates.jax.distributions as tfd
+    a = lsl.param(np.float32(30.0), lsl.Dist(tfd.Normal, loc=0.0, scale=1.0), name="a")
+    b = lsl.param(np.float32(0.0), lsl.Dist(tfd.Normal, loc=0.0, scale=1.0), name="b")
+    model = lsl.GraphBuilder().add(a, b).build_model()
+    iface = gs.LieselInterface(model)
+    S = model.state
+    ks, _ = keys_pool()
+    info1, s1 = mh_step(ks[1], iface, {"a": jnp.float32(0.0)}, S)
+    info2, s2 = mh_step(ks[2], iface, {"b": jnp.float32(20.0)}, S)
+    ok = float(info1.acceptance_prob) == 1.0 and float(info2.acceptance_prob) == 0.0 and not bool(info2.position_moved) and float(s2["a_value"].value) == 30.0 and float(s2["b_value"].value) == 0.0
+    col.add(None if ok else {"sig": "native::mh_step::liesel_same_state_object", "what": f"second step from the same state: acceptance_prob={float(info2.acceptance_prob)} moved={bool(info2.position_moved)} "
+                             f"returned (a, b) = ({float(s2['a_value'].value)}, {float(s2['b_value'].value)}); log-ratio is -200, expected probability 0 and the input state", "input": {"proposals": [{"a": 0.0}, {"b": 20.0}]}})
+
+
 def bounded(tier, seed):
     ks, us = keys_pool()
     col = util.Collector()
+    try:
+        liesel_two_steps_case(col)
+    except Exception as e:
+        col.add({"sig": f"native::mh_step::exception::{type(e).__name__}", "what": str(e)[:300], "input": {"scenario": "two steps from one Liesel state object"}})
     try:
         kernel_cases(col)
     except Exception as e:
